@@ -899,3 +899,9 @@ VARIANTS += [
     dict(prop="C01", name="prf-zip-skips-first-row", expect="WIRE-prf|zip(prf values, the same rows)",
          edits=[dict(file=OPF, find="        .zip(stream::iter(input_rows))", replace="        .zip(stream::iter(input_rows).skip(0).filter(|_| std::future::ready(true)))")]),
 ]
+
+APF = "ipa-core/src/app.rs"
+VARIANTS += [
+    dict(prop="C18", name="shard-handler-accepts-kill", expect="TABLE-dispatch|shard:",
+         edits=[dict(file=APF, find="            RouteId::CompleteQuery => {\n                // The processing flow for this API is exactly the same, regardless", replace="            RouteId::KillQuery | RouteId::CompleteQuery => {\n                // The processing flow for this API is exactly the same, regardless")]),
+]
